@@ -16,7 +16,7 @@ namespace ndstat {
 
 template <std::size_t N>
 struct ndx : cocls_nd::static_storage<N> {
-    char *buf() { return this->_buffer; }
+    char *buf() { return this->VN_static_storage__buffer; }
 };
 
 template <typename Fn>
